@@ -1060,6 +1060,12 @@ class AsyncWriter(threading.Thread, IndexWriter):
     def update_document(self, *args, **kwargs):
         self._record("update_document", args, kwargs)
 
+    def start_group(self, *args, **kwargs):
+        self._record("start_group", args, kwargs)
+
+    def end_group(self, *args, **kwargs):
+        self._record("end_group", args, kwargs)
+
     def add_field(self, *args, **kwargs):
         self._record("add_field", args, kwargs)
 
